@@ -316,7 +316,11 @@ claim("C14",
       "IS the directive: every letter case and surrounding white space counts, nothing else does), "
       "C14_code_line_without_slash, C14_directives_apply, C14_trailing_line_comment_directive / "
       "C14_trailing_block_comment_directive (a comment AFTER slash-free code on that line is found by the unanchored regex "
-      "and decides in the same way). Several comments on one line are NOT proved; decided by exploration: "
+      "and decides in the same way). EVERY LINE (Proofs/CommentSpec.v): search_spec -- a closed form of the backtracking "
+      "matcher on the translated regex for every newline-free text -- gives C14_directive_scan_every_line (the nearest "
+      "non-blank line decides by the body of the LEFTMOST comment the regex sees: after the first `//` followed by a "
+      "character, or between `/*` and the LAST `*/` of the line) and C14_directive_decision (directive_check in closed "
+      "form for every text of scalar values and every position; no hypothesis on line shapes). Exploration: "
       "generated files with directives / near-misses in every position relative to 1-3 statements, blank-line runs, "
       "indentation, both comment styles, CRLF, plus an enumerated set of placements, against the property-text oracle "
       "on finder, model (translated comment regex, generated Unicode tables) and binary.",
